@@ -17,6 +17,7 @@ fn arg(name: &str) -> Option<String> {
 fn main() {
   install_panic_hook();
   rxrust::verif::set_hooks(Box::new(ConcHooks));
+  rxverif::vsched::install_timer();
   let cases: J = serde_json::from_reader(std::fs::File::open(arg("--cases").expect("--cases")).unwrap()).unwrap();
   let cases = cases["cases"].as_array().unwrap().clone();
   let model: J = serde_json::from_reader(std::fs::File::open(arg("--model").expect("--model")).unwrap()).unwrap();
